@@ -35,6 +35,11 @@ fn stuck_operator_terms() -> Vec<(String, M)> {
             (format!("x {} x", op.text()), M::Bin(op, vx(), vx())),
             (format!("y {} y", op.text()), M::Bin(op, vy(), vy())),
             (format!("y {} x", op.text()), M::Bin(op, vy(), vx())),
+            // an operand that still reduces: convertible with the literal form, not identical to it
+            (format!("x {} (1 + 1)", op.text()), M::Bin(op, vx(), rc(M::Bin(Op::Add, one(), one())))),
+            (format!("x {} 2", op.text()), M::Bin(op, vx(), rc(M::Lit(num_bigint::BigInt::from(2))))),
+            (format!("(1 + 1) {} y", op.text()), M::Bin(op, rc(M::Bin(Op::Add, one(), one())), vy())),
+            (format!("2 {} y", op.text()), M::Bin(op, rc(M::Lit(num_bigint::BigInt::from(2))), vy())),
         ] {
             out.push((format!("(x : int) => (y : int) => {name}"), lam2(body.clone())));
             if !op.is_arith() {
